@@ -64,6 +64,14 @@ def run(ctx):
             witness.apply(ctx, lambda t: "R10.3" if (t or "").startswith("m") else "R10.1", wp, compiler="g++",
                           defines=("NITRO_LOG_MIN_SEVERITY=" + SEVS[i], "VERIF_MIN_IDX=%d" % i), label="g++ min=" + SEVS[i])
     ctx.need("R10.1", "witness cells", cells, 24 * len(minima) // 2)
+    # ---- R10.6: the minimum in force is the one defined where log.hpp is included (include-order witness)
+    ctx.rule("R10.6", "include-order witness (witness/tl_C10_order.cpp): with attribute / filter / sink headers included first and NITRO_LOG_MIN_SEVERITY (re)defined just before log.hpp, "
+                      "the statements below that minimum are the discarding stream type")
+    wo = os.path.join(VERIF, "witness", "tl_C10_order.cpp")
+    ro = witness.apply(ctx, lambda t: "R10.6", wo, label="order")
+    ctx.need("R10.6", "include-order cells", len(ro["tags"]), 7)
+    if ctx.tier == "thorough":
+        witness.apply(ctx, lambda t: "R10.6", wo, compiler="g++", label="g++ order")
     ctx.tables["minima_compiled"] = [SEVS[i] for i in minima]
 
     # ---- R10.5: the statement writes its severity (and tag) into every record layout that has the attribute
